@@ -36,6 +36,37 @@ def find_module(pid: str):
     return importlib.import_module("checks." + Path(hits[0]).stem)
 
 
+def ensure_warm():
+    """numba's cache is keyed by a digest of the Python sources (lib.bootstrap): after any
+    source edit every shard would compile the same kernels inside its wall-clock part
+    budgets.  Compile once here, before the budgets start (best effort, never fatal)."""
+    cache = os.environ.get("NUMBA_CACHE_DIR")
+    if not cache or os.environ.get("VERIF_NO_WARMUP"):
+        return
+    marker, lock = Path(cache) / ".warm", Path(cache) / ".warming"
+    if marker.exists():
+        return
+    try:
+        fd = os.open(str(lock), os.O_CREAT | os.O_EXCL | os.O_WRONLY)
+        os.close(fd)
+    except FileExistsError:
+        # another run is warming the same cache: wait for it (at most 15 minutes)
+        t_end = time.monotonic() + 900
+        while time.monotonic() < t_end and not marker.exists() and lock.exists():
+            time.sleep(2)
+        return
+    try:
+        subprocess.run([sys.executable, str(VERIF / "lib" / "warmup.py")], timeout=900,
+                       stdout=subprocess.DEVNULL, stderr=subprocess.DEVNULL, cwd=str(VERIF))
+    except Exception:  # noqa: BLE001
+        pass
+    finally:
+        try:
+            lock.unlink()
+        except OSError:
+            pass
+
+
 def main() -> int:
     ap = argparse.ArgumentParser()
     ap.add_argument("pid")
@@ -79,6 +110,7 @@ def main() -> int:
 
         native_build.build_parallel()
         mod = find_module(pid)
+        ensure_warm()
     except Exception:
         import traceback
 
